@@ -105,25 +105,26 @@ fn fri_verify_layers(
     step_sizes: Vec<Felt>,
     mut queries: Vec<FriLayerQuery>,
 ) -> Result<Vec<FriLayerQuery>, Error> {
-    let len: usize = n_layers.to_biguint().try_into().unwrap();
+    let len: usize = n_layers.to_biguint().try_into().map_err(|_| Error::InvalidValue)?;
 
     for i in 0..len {
-        let target_layer_witness = layer_witness.get(i).unwrap();
+        let target_layer_witness = layer_witness.get(i).ok_or(Error::InvalidValue)?;
         let mut target_layer_witness_leaves = target_layer_witness.leaves.to_owned();
         let target_layer_witness_table_withness = target_layer_witness.table_witness.to_owned();
-        let target_commitment = commitment.get(i).unwrap().clone();
+        let target_commitment = commitment.get(i).ok_or(Error::InvalidValue)?.clone();
 
         // Params.
-        let coset_size = Felt::TWO.pow_felt(step_sizes.get(i).unwrap());
+        let coset_size = Felt::TWO.pow_felt(step_sizes.get(i).ok_or(Error::InvalidValue)?);
         let params = FriLayerComputationParams {
             coset_size,
             fri_group: fri_group.clone(),
-            eval_point: *eval_points.get(i).unwrap(),
+            eval_point: *eval_points.get(i).ok_or(Error::InvalidValue)?,
         };
 
         // Compute next layer queries.
         let (next_queries, verify_indices, verify_y_values) =
-            compute_next_layer(&mut queries, &mut target_layer_witness_leaves, params).unwrap();
+            compute_next_layer(&mut queries, &mut target_layer_witness_leaves, params)
+                .map_err(|_| Error::InvalidValue)?;
 
         // Table decommitment.
         table_decommit(
@@ -152,6 +153,12 @@ pub fn fri_verify(
             actual: decommitment.values.len(),
         });
     }
+    if queries.len() != decommitment.points.len() {
+        return Err(Error::InvalidLength {
+            expected: queries.len(),
+            actual: decommitment.points.len(),
+        });
+    }
 
     // Compute first FRI layer queries.
     let fri_queries = gather_first_layer_queries(queries, decommitment.values, decommitment.points);
@@ -166,7 +173,7 @@ pub fn fri_verify(
         commitment.inner_layers,
         witness.layers,
         commitment.eval_points,
-        commitment.config.fri_step_sizes[1..commitment.config.fri_step_sizes.len()].to_vec(),
+        commitment.config.fri_step_sizes.get(1..).ok_or(Error::InvalidValue)?.to_vec(),
         fri_queries,
     )?;
 
